@@ -418,7 +418,9 @@ impl Prop for C11 {
 		if trailer {
 			bytes.extend_from_slice(&TRAILER);
 		}
-		let mode = if rng.chance(1, 6) { Mode::SingleObject } else { Mode::Datum };
+		// the single-object entry points cannot be given limits (max_seq_size stays at 10^9), so hostile
+		// counts are left to datum mode: single-object mode uses reference encodings only
+		let mode = if rng.chance(1, 6) && gk <= 6 { Mode::SingleObject } else { Mode::Datum };
 		if mode == Mode::SingleObject {
 			// header: marker + fingerprint computed by the crate (the header's correctness is C18's business);
 			// occasionally damaged so that the error path is compared too
